@@ -41,6 +41,9 @@ def run(env, tier, seed, broken=None):
     cli('a2', ['{SCRIPT}', 'x']); cli('a3', ['{SCRIPT}', 'x', 'y']); cli('a4', ['x.bn', 'y.bn'], exists=False)
     for i, fn in enumerate(['p.BN', 'p.bn.txt', 'p', '.bn', 'd.bn/x', 'dir/p.bn', 'a.b.bn', 'p.bnn', 'p.b', 'bn', 'p.bn ', 'নাম.bn', 'x.y/z.bn', '..bn', 'p.']):
         cli('e%d' % i, ['{SCRIPT}'], fname=fn)
+    for i, a in enumerate(['-h', '--help', '--', '-x', '-', '-d.bn']):
+        cli('f%d' % i, [a], exists=False)
+    cli('f9', ['{SCRIPT}'], fname='-d.bn'); cli('f10', ['--', '{SCRIPT}']); cli('f11', ['-h', '{SCRIPT}'])
     cli('m0', ['missing.bn'], exists=False); cli('m1', ['{SCRIPT}'], fname='d.bn', mkdir=True)
     root = os.geteuid() == 0
     if not root:
@@ -56,7 +59,7 @@ def run(env, tier, seed, broken=None):
         # own predicate: >1 argument or a bad extension -> 64 with a message, nothing executed; unreadable -> non-zero, message
         if len(argv) > 1 and (r['status'] != 64 or b'1\n' == r['stdout']):
             mism.append({'case': {'id': g['id'], 'cli': True, 'argv': argv}, 'reason': 'more than one argument: status %s stdout %r' % (r['status'], r['stdout'][:40])})
-        if len(argv) == 1 and (not exists or mkdir or not readable) and (r['status'] == 0 or r['stderr'] == b'' or r['stdout'] != b'') and fname.endswith('.bn'):
+        if len(argv) == 1 and argv[0] in ('{SCRIPT}', 'missing.bn') and (not exists or mkdir or not readable) and (r['status'] == 0 or r['stderr'] == b'' or r['stdout'] != b'') and fname.endswith('.bn'):
             mism.append({'case': {'id': g['id'], 'cli': True, 'argv': argv, 'fname': fname}, 'reason': 'unreadable file: status %s stderr %r' % (r['status'], r['stderr'][:60])})
     # ---- programs of each outcome class x stdin contents
     stdins = ['', 'a', 'a\n', 'a\nb', '  a  \n\tb\n', 'l1\nl2\nl3\nl4\n', '\n\n', ' \n', 'x y\r\nz\r\n', 'বাংলা ইনপুট\n']
@@ -86,6 +89,16 @@ def run(env, tier, seed, broken=None):
     # stdin from a regular file needs the gorunner flag: split
     mm, ri2, rm2 = diff_runs_stdinfile(env, cases)
     mism += mm
+    # very long input lines: beyond what the (quadratic-time) model text functions handle quickly; implementation-only predicate
+    longs = [('x' * 70000 + '\n  second  \n', b'x' * 70000 + b'\nsecond\n'), ('y' * 65536 + '\nz', b'y' * 65536 + b'\nz\n'), ('w' * 65535 + '\r\nv\r\n', b'w' * 65535 + b'\nv\n')]
+    src2 = '%s %s();\n%s %s();\n' % (PRINT, INPUT, PRINT, INPUT)
+    gl = [core.file_case('longin%d' % i, src2, sin)[0] for i, (sin, want) in enumerate(longs)]
+    rl = env.run_impl(gl)
+    for i, (sin, want) in enumerate(longs):
+        r = rl['longin%d' % i][0]
+        if r['status'] != 0 or r['stdout'] != want or r['stderr'] != b'':
+            mism.append({'case': {'id': 'longin%d' % i, 'src': src2, 'stdin': sin[:30] + '...(%d characters)' % len(sin)},
+                         'reason': 'a long input line was not delivered whole: status %s, %d bytes of stdout, stderr %r' % (r['status'], len(r['stdout']), r['stderr'][:100])})
     nontriv = set()
     for c in cases:
         r = ri2[c['id']][0]
